@@ -36,6 +36,7 @@ structure Sim where
   reshared : Bool := false
   aggs : Nat := 0                  -- aggregations during the current op
   fired : Nat := 0                 -- goroutines of the node woken by the clock during the current op
+  events : Nat := 0                -- tick / catch-up events fed to `step` so far (each checked against `evOk`)
   oT : List String := []
   oA : List String := []
   oE : List (Nat × Int) := []
@@ -93,7 +94,9 @@ def Sim.outs (s : Sim) (outs : List Out) : Sim :=
 
 /-- the run loop, having taken `info` from its channel, reads the head and signs -/
 def Sim.procTick (s : Sim) (info : RoundInfo) : Sim :=
-  let s := { s with oT := s.oT ++ [s!"{info.round}:{s.st.head}"] }
+  -- the theorems speak about events that satisfy `evOk`; the driver checks that it never feeds another one
+  let s := if evOk s.cfg s.st (.tick info) then s else s.flag "invalid-event"
+  let s := { s with oT := s.oT ++ [s!"{info.round}:{s.st.head}"], events := s.events + 1 }
   let (st', outs) := step s.cfg s.st (.tick info)
   let a0 := s.aggs
   let s := { s with aggs := 0 }
@@ -144,8 +147,9 @@ def Sim.quiesce : Nat → Sim → Sim
     match dueSleeper s.st.sleepers s.st.clock with
     | none => s
     | some i =>
+      let s := if evOk s.cfg s.st (.catchupFire i) then s else s.flag "invalid-event"
       let (st', outs) := step s.cfg s.st (.catchupFire i)
-      let s := ({ s with st := st', fired := s.fired + 1 }).outs outs
+      let s := ({ s with st := st', fired := s.fired + 1, events := s.events + 1 }).outs outs
       Sim.quiesce fuel s
 
 /-- A burst: one Advance crosses the expiries e1 < e1+p < … < e1+k·p (k ≥ 1). clockwork hands the first one
